@@ -219,6 +219,12 @@ def took(path, truth, *texts):
             t, neg = cand, False
             while isinstance(t, ast.UnaryOp) and isinstance(t.op, ast.Not):
                 t, neg = t.operand, not neg
+            if isinstance(t, ast.Compare) and len(t.ops) == 1 and isinstance(t.ops[0], (ast.NotIn, ast.IsNot, ast.NotEq)):
+                # `a not in b` is `not (a in b)` and so on: compared in the positive spelling
+                pos = {ast.NotIn: ast.In, ast.IsNot: ast.Is, ast.NotEq: ast.Eq}[type(t.ops[0])]
+                t2 = ast.Compare(left=t.left, ops=[pos()], comparators=t.comparators)
+                if N.same(t2, *texts) and (e.truth != (not neg)) == truth:
+                    return i
             if N.same(t, *texts) and (e.truth != neg) == truth:
                 return i
     return None
